@@ -107,7 +107,7 @@ CHECKS = {
              "original's for all spectra/strains; the weight scale factor is a symbol; the static cubic fit (exact least-squares stub) is "
              "invariant under row permutations that keep the reference row first and under column order/case/spelling; the real static-file "
              "reader keeps volume, moduli and lattice parameters of a row together for every listed row order (tokens, ordered volumes); the "
-             "real Calculator._load hands the same volume-block sequence to the QHA layer whatever order the phonon file lists them in (or, "
+             "real Calculator._load hands every (volume, q-point) block on with its modes in the listed order (all outcomes of any comparison explored) and the same volume-block sequence to the QHA layer whatever order the phonon file lists them in (or, "
              "if the order gets through, qha's grid refinement is compared as exact linear maps of symbolic free energies and interpolate_modes "
              "as uninterpreted interpolants of its node sets); re-orderings of static rows that move the strain reference row are decided to "
              "1e-6 by LRA on concrete volume grids; through the real Calculator._load every static row keeps its volume, components and lattice "
@@ -118,7 +118,7 @@ CHECKS = {
         design="3/C13"),
     "C12": dict(
         engine="fp-kernels (cvc5) + symnum",
-        technique="AST -> QF_FP translation of the Bose-factor kernels (exp axiomatised), decided by cvc5; symbolic pipeline for "
+        technique="AST -> QF_FP translation of the Bose-factor kernels (straight-line interpretation of the property bodies: locals, in-place operators, out= aliases, cache guards; exp axiomatised), decided by cvc5; symbolic pipeline for "
                   "T=0 masking and absence of undefined values; forking execution of the task de-duplication (coinciding strain fractions) with "
                   "the whole pipeline run on every path; concrete dtype check of the eigen-frame",
         text="Partial: in IEEE binary64 semantics cvc5 shows no (omega in [30,1500] cm^-1, T any positive double up to 3000 K) makes Q, Q1 or Q2 "
@@ -156,7 +156,7 @@ CHECKS = {
              "compliances are its inverse's entries, K_V, G_V, K_R, G_R, Hill values equal the full-tensor contractions, "
              "rho v_s^2 = G_VRH and rho v_p^2 = K_VRH + 4/3 G_VRH in km/s. Reuss<=Hill<=Voigt (K and G) for the general symmetric "
              "stiffness of each key set (up to all 21 components symbolic) with S C = 1: six polynomial identities in all C and S entries "
-             "(certificates for w.C.w = b(ab - n^2)), Cauchy-Schwarz and a 5-term sum lemma by nlsat; direct nlsat cross-check on cubic "
+             "(certificates for w.C.w = b(ab - n^2)), Cauchy-Schwarz and a 5-term sum lemma by nlsat; key sets include the nine orthotropic components plus shear-shear couplings only; direct nlsat cross-check on cubic "
              "and transversely isotropic tensors; a calculator's compliances / Reuss / Hill / velocities are unchanged after a second "
              "calculator was built in the same process.",
         note="S.C = I itself is the contract of numpy.linalg.inv (stubbed); positive definiteness enters the ordering only through 12 "
@@ -199,7 +199,7 @@ CHECKS = {
                   "through the real constructor signatures; exact least squares for lsq_poly; recording axes for plot_modes; z3 equalities",
         text="For each of the seven methods and the listed orders: the three returned arrays are exp(F), -F', -F'' of one and the same "
              "interpolant built from the flipped (ln V, ln omega) nodes with the documented node selection (for every implementation of "
-             "the interpolant); lsq_poly is exact for ln omega polynomial in ln V up to the order for every admissible number of volumes down to nv = order+1; interpolate_modes fills slot (q,m) from "
+             "the interpolant); lsq_poly is exact for ln omega polynomial in ln V up to the order for every admissible number of volumes down to nv = order+1, also when other orders were fitted on the same volumes earlier in the process; interpolate_modes fills slot (q,m) from "
              "that mode only and leaves Gamma acoustic slots zero; plot_modes draws freq / gamma / V dgamma/dV for n = 0, 1, 2 and every -n the `cij modes` "
              "parser admits is drawable; interpolate_modes without an order runs like the method's own default order (twins).",
         note="That scipy's interpolants reproduce power laws on the extrapolated grid is library numerics (outside; used only in replays); the "
@@ -257,7 +257,7 @@ CHECKS = {
                   "every argmin comparison; per path: selected line is a nearest grid value); extract-geotherm with the bivariate spline "
                   "uninterpreted and z3 equality of each value with SPLINE[T grid, P grid, table](T_i, P_i)",
         text="Partial: extract - for every requested value in and beyond the tabulated range, every feasible outcome returns a nearest grid "
-             "line, the same line for every variable, labelled by the other coordinate (rows for -T, columns for -P); extract-geotherm - each "
+             "line, the same line for every variable on one grid and the nearest line of its own table when the variables are tabulated on different grids, labelled by the other coordinate (rows for -T, columns for -P); extract-geotherm - each "
              "value is the spline of the table with temperatures along rows and pressures along columns evaluated at the geotherm row's "
              "(T_i, P_i) for every geotherm point inside the tabulated range (all paths of any data-dependent guard), for default and custom "
              "column names, geotherm columns passed through; the variable's table is read whatever other VAR_tp_* entries exist next to it and in "
